@@ -930,6 +930,16 @@ class Exec:
             # read of a local that is not bound on this path: UnboundLocalError
             self.oblige(f"{self.fv.qual}:local-bound:{n.id}@{n.lineno}", False)
             raise PathEnd()
+        prog = getattr(self.theory, "program", None)
+        const = getattr(prog, "constants", {}).get(n.id) if prog is not None else None
+        if const is not None:
+            # a module-level constant display (tuple / set of literals or enum members): its value is the display
+            c = const
+            if isinstance(c, ast.Call):
+                c = c.args[0]
+            if isinstance(c, ast.Set):
+                c = ast.copy_location(ast.Tuple(elts=c.elts, ctx=ast.Load()), c)
+            return self.expr(c)
         return FuncV(n.id)
 
     def e_Tuple(self, n):
@@ -1108,7 +1118,23 @@ class Exec:
             raise Untranslatable("lambda with defaults / star parameters")
         return LambdaV(n, dict(self.env))
 
+    def s_FunctionDef(self, n):
+        # a nested function: a closure over the variables bound so far (read-only use; called by the theory's call())
+        a = n.args
+        if a.vararg or a.kwarg or a.kwonlyargs or a.defaults or a.posonlyargs or n.decorator_list:
+            raise Untranslatable("nested function with defaults / star parameters / decorators")
+        if any(isinstance(c, (ast.Nonlocal, ast.Global, ast.Yield, ast.YieldFrom)) for c in ast.walk(n)):
+            raise Untranslatable("nested function with nonlocal / global / yield")
+        self.env[n.name] = LambdaV(n, self.env)       # (the live frame: later rebinding of a captured name is seen)
+
     def call_lambda(self, lam, args):
+        if isinstance(lam.node, ast.FunctionDef):
+            params = [p.arg for p in lam.node.args.args]
+            if len(params) != len(args):
+                raise PyRaise(ExcV("TypeError"))
+            amap = dict(lam.env)
+            amap.update(dict(zip(params, args)))
+            return self.inline(lam.node, amap, lam.node.name)
         params = [p.arg for p in lam.node.args.args]
         if len(params) != len(args):
             raise PyRaise(ExcV("TypeError"))
